@@ -93,7 +93,16 @@ func (a *Arg) Resolve(field *Field, args map[string]interface{}) (result interfa
 	case typeStr:
 		result = a.Type
 	case defaultValueStr:
-		result = a.Default
+		// defaultValue is a String whatever the type of the default is:
+		// a string as it is, anything else (numbers, enum values, lists,
+		// input objects) as it is written in a schema.
+		switch d := a.Default.(type) {
+		case nil:
+		case string:
+			result = d
+		default:
+			result = valueString(d)
+		}
 	}
 	return
 }
